@@ -164,6 +164,16 @@ def alternatives(sc: Schemas, s, inherited=None):
             alts.append(tag({"kind": "enumnum", "nums": nums}))
         return alts
     t = s.get("type")
+    if isinstance(t, list):
+        # "type": ["integer", "string"] is the union of the single-type schemas
+        for ti in t:
+            sub = dict(s)
+            sub["type"] = ti
+            for a in alternatives(sc, sub):
+                a = dict(a)
+                a.setdefault("via", "typelist")
+                alts.append(a)
+        return alts
     if t == "string":
         pat = s.get("pattern")
         a = {"kind": "str"}
